@@ -25,6 +25,10 @@ package env
 //@ spec abstract bindR(w World, outer types.EnvType, binds types.MalType, exprs types.MalType) types.EnvType
 //@ spec abstract bindE(w World, outer types.EnvType, binds types.MalType, exprs types.MalType) error
 //@ spec abstract bindW(w World, outer types.EnvType, binds types.MalType, exprs types.MalType) World
+// binding a single name (what the parameter lists of one element each denote, whatever arrays hold them)
+//@ spec abstract bind1R(w World, outer types.EnvType, name types.MalType, value types.MalType) types.EnvType
+//@ spec abstract bind1E(w World, outer types.EnvType, name types.MalType, value types.MalType) error
+//@ spec abstract bind1W(w World, outer types.EnvType, name types.MalType, value types.MalType) World
 
 //@ func _newEnv() (r)
 //@   panics never
@@ -48,6 +52,7 @@ package env
 
 //@ func NewSubordinateEnvWithBinds(outer, binds, exprs) (r, err)
 //@   changes world
+//@   ensures implies(is(binds, List) && len(binds.(List).Val) == 1 && is(exprs, List) && len(exprs.(List).Val) == 1, r == bind1R(old(world()), outer, binds.(List).Val[0], exprs.(List).Val[0]) && err == bind1E(old(world()), outer, binds.(List).Val[0], exprs.(List).Val[0]) && world() == bind1W(old(world()), outer, binds.(List).Val[0], exprs.(List).Val[0])) @assume
 //@   ensures r == bindR(old(world()), outer, binds, exprs) && err == bindE(old(world()), outer, binds, exprs) && world() == bindW(old(world()), outer, binds, exprs) @assume
 //@   requires validEnvVal(outer)
 //@   panics never
